@@ -15,18 +15,21 @@ import (
 
 // A comparison, normalised: P = lhs - rhs as a polynomial over leaf names (no local resolution), and the operator.
 type cmpSite struct {
-	fn   string
-	pos  token.Pos
-	op   token.Token
-	p    Poly
-	text string
-	lt   types.Type
-	pa   Poly            // the same polynomial with locals/parameters named by their type (alpha-invariant)
-	pr   Poly            // the named polynomial with single-definition locals substituted (hoisted or inlined locals are immaterial)
-	from string          // the function the comparison is written in, when it was reached through an unexported helper
-	uses map[string]bool // identifiers the comparison depends on, directly or through the single-definition locals it mentions
-	full bool            // the condition of a plain counting loop `for i := 0; i < E; i++` (the same as ranging over E)
-	rop  token.Token     // the operator under which the path is REFUSED (error / false / non-ACCEPT / continue / break), when the comparison governs such a branch; 0 otherwise
+	fn     string
+	pos    token.Pos
+	op     token.Token
+	p      Poly
+	text   string
+	lt     types.Type
+	pa     Poly            // the same polynomial with locals/parameters named by their type (alpha-invariant)
+	pr     Poly            // the named polynomial with single-definition locals substituted (hoisted or inlined locals are immaterial)
+	pra    Poly            // the type-named polynomial with locals substituted (renamed AND moved)
+	from   string          // the function the comparison is written in, when it was reached through an unexported helper
+	uses   map[string]bool // identifiers the comparison depends on, directly or through the single-definition locals it mentions
+	full   bool            // the condition of a plain counting loop `for i := 0; i < E; i++` (the same as ranging over E)
+	tn, en map[string]bool // fields, functions and constants mentioned by the branch taken when the governing `if` holds / does not hold
+	negc   bool            // the comparison stands under a `!` in that condition
+	rop    token.Token     // the operator under which the path is REFUSED (error / false / non-ACCEPT / continue / break), when the comparison governs such a branch; 0 otherwise
 }
 
 var flipOp = map[token.Token]token.Token{token.LSS: token.GTR, token.LEQ: token.GEQ, token.GTR: token.LSS, token.GEQ: token.LEQ, token.EQL: token.EQL, token.NEQ: token.NEQ}
@@ -70,6 +73,19 @@ func cmpsIn(pk *packages.Package, fd *ast.FuncDecl, fn string, subst map[types.O
 		}
 	}
 	fparents := parentMap(fd.Body)
+	rangedOver := map[types.Object]ast.Expr{}
+	ast.Inspect(fd.Body, func(n ast.Node) bool {
+		if rs, ok := n.(*ast.RangeStmt); ok {
+			for _, e := range []ast.Expr{rs.Key, rs.Value} {
+				if id, ok := e.(*ast.Ident); ok && id.Name != "_" {
+					if o := info.ObjectOf(id); o != nil {
+						rangedOver[o] = rs.X
+					}
+				}
+			}
+		}
+		return true
+	})
 	ast.Inspect(fd.Body, func(n ast.Node) bool {
 		be, ok := n.(*ast.BinaryExpr)
 		if !ok {
@@ -102,6 +118,15 @@ func cmpsIn(pk *packages.Package, fd *ast.FuncDecl, fn string, subst map[types.O
 				pr = polyAdd(lr, rr, -1)
 			}
 		}
+		pra := polyAdd(la, ra, -1)
+		polyAbstract = true
+		polyAbsSeen = nil
+		if lr, ok := exprPoly(info, be.X, fdefs, nil, 0); ok {
+			if rr, ok := exprPoly(info, be.Y, fdefs, nil, 0); ok {
+				pra = polyAdd(lr, rr, -1)
+			}
+		}
+		polyAbstract = false
 		uses := map[string]bool{}
 		var collectUses func(e ast.Node, depth int)
 		collectUses = func(e ast.Node, depth int) {
@@ -115,6 +140,9 @@ func cmpsIn(pk *packages.Package, fd *ast.FuncDecl, fn string, subst map[types.O
 					if d, ok := fdefs[o]; ok && d.rhs != nil {
 						collectUses(d.rhs, depth+1)
 					}
+					if rx, ok := rangedOver[o]; ok {
+						collectUses(rx, depth+1) // the key/value of `range xs` stands for xs[…]
+					}
 					if a, ok := subst[o]; ok {
 						collectUses(a, depth+1)
 					}
@@ -123,7 +151,25 @@ func cmpsIn(pk *packages.Package, fd *ast.FuncDecl, fn string, subst map[types.O
 			})
 		}
 		collectUses(be, 0)
-		out = append(out, cmpSite{fn, be.Pos(), be.Op, polyAdd(l, r, -1), types.ExprString(be), info.TypeOf(be.X), polyAdd(la, ra, -1), pr, "", uses, countingLoop(info, fparents, be), refusalOp(info, fd, fparents, be)})
+		// a local that merely names a value the comparison spells out (index := xs[k]; … flats[xs[k]] …) is used too
+		prs := pr.String()
+		for o, d := range fdefs {
+			if d.rhs == nil || d.pos != 0 || d.n != 1 || uses[o.Name()] {
+				continue
+			}
+			if rp, ok := exprPoly(info, d.rhs, fdefs, nil, 0); ok && len(rp) == 1 {
+				for a, cf := range rp {
+					if a != "" && cf == 1 && len(a) > 3 && strings.Contains(prs, a) {
+						uses[o.Name()] = true
+					}
+				}
+			}
+		}
+		site := cmpSite{fn: fn, pos: be.Pos(), op: be.Op, p: polyAdd(l, r, -1), text: types.ExprString(be), lt: info.TypeOf(be.X), pa: polyAdd(la, ra, -1), pr: pr, pra: pra, uses: uses, full: countingLoop(info, fparents, be), rop: refusalOp(info, fd, fparents, be)}
+		if site.rop == 0 {
+			site.tn, site.en, site.negc = branchNamesOf(info, fparents, be)
+		}
+		out = append(out, site)
 		return true
 	})
 	return out
@@ -324,6 +370,7 @@ type cmpSpec struct {
 	abs   string   // the comparison with locals named by type, canonical (canonCutAbs): finds it again after a rename
 	res   string   // the comparison with single-definition locals substituted, canonical (canonCut): finds it again after a local was introduced or inlined
 	rop   string   // the operator under which the path is refused (refusalOp), "" when the comparison governs no refusal
+	mk    string   // when rop was read off an ACTION: the field/function/constant of that action it was read from (see markRop)
 	typ   string   // optional: operand type name (e.g. "Checkpoint") instead of atoms
 	spec  string   // the spec's formulation
 }
@@ -376,11 +423,15 @@ func init() {
 				continue
 			}
 			for _, s := range all[fn] {
-				ropS := ""
+				ropS, mkS := "", ""
 				if s.rop != 0 {
 					ropS = s.rop.String()
+				} else if mk := pickMark(s); mk != "" {
+					if r := markRop(s, mk); r != 0 {
+						ropS, mkS = r.String(), mk
+					}
 				}
-				fmt.Printf("%-55s %-2s  P=%-60s  // %s\t%s\t%s\t%s\n", fn, s.op, s.p.String(), s.text, canonCutAbs(s.pa, s.op), canonCut(s.pr, s.op), ropS)
+				fmt.Printf("%-55s %-2s  P=%-60s  // %s\t%s\t%s\t%s\t%s\n", fn, s.op, s.p.String(), s.text, canonCutAbs(s.pa, s.op), canonCut(s.pr, s.op), ropS, mkS)
 			}
 		}
 		os.Exit(0)
@@ -550,8 +601,21 @@ func ruleCmpSpec(c *Ctx) {
 				polar = false
 			}
 		}
+		siteRop := func(s cmpSite) token.Token {
+			if s.rop != 0 {
+				return s.rop
+			}
+			for _, e := range g.entries {
+				if e.mk != "" {
+					if r := markRop(s, e.mk); r != 0 {
+						return r
+					}
+				}
+			}
+			return 0
+		}
 		for _, s := range matched {
-			if s.rop == 0 {
+			if siteRop(s) == 0 {
 				polar = false
 			}
 		}
@@ -577,11 +641,12 @@ func ruleCmpSpec(c *Ctx) {
 			}
 		}
 		got := map[string]int{}
+		perOrigin := map[string]map[string]int{}
 		gotText := map[string]string{}
 		for _, s := range matched {
 			p := s.p
 			op := s.op
-			rop := s.rop
+			rop := siteRop(s)
 			if co, _ := coefOfAtom(p, res[0]); co < 0 {
 				p = polyMul(p, polyConst(-1))
 				op = flipOp[op]
@@ -600,10 +665,22 @@ func ruleCmpSpec(c *Ctx) {
 			}
 			got[sg]++
 			gotText[sg] = s.text
+			if perOrigin[sg] == nil {
+				perOrigin[sg] = map[string]int{}
+			}
+			perOrigin[sg][s.from]++
 		}
 		bad := false
 		for sg, n := range got {
-			if want[sg] != n {
+			// the same comparison made more often than reviewed is harmless (a check repeated in two helpers);
+			// one the spec does not prescribe here, or one made less often, is not
+			over := false
+			for _, k := range perOrigin[sg] {
+				if k > want[sg] {
+					over = true // more often within ONE function than reviewed: not a repeated helper, a changed test
+				}
+			}
+			if want[sg] == 0 || n < want[sg] || over {
 				bad = true
 				c.bad(key, matched[0].pos, "`%s` normalises to operator/offset/coefficients (%s) x%d; the spec prescribes {%s} here: %s (an off-by-one or a flipped operator at this boundary accepts or rejects exactly the edge case)", gotText[sg], sg, n, fmtWant(want), specStr)
 				break
@@ -611,7 +688,7 @@ func ruleCmpSpec(c *Ctx) {
 		}
 		if !bad {
 			for sg, n := range want {
-				if got[sg] != n {
+				if got[sg] < n {
 					bad = true
 					c.bad(key, matched[0].pos, "the spec's comparison (%s) x%d is missing in %s; found {%s}: %s", sg, n, g.fn, fmtWant(got), specStr)
 					break
@@ -1034,11 +1111,35 @@ func refusalOp(info *types.Info, fd *ast.FuncDecl, parents map[ast.Node]ast.Node
 						return true
 					}
 				}
-				if r, ok := b.List[0].(*ast.ReturnStmt); ok && len(b.List) == 1 && len(r.Results) == 0 && fd.Type.Results == nil {
-					return true // a bare return: nothing (more) is done
+				if r, ok := b.List[0].(*ast.ReturnStmt); ok && len(b.List) == 1 {
+					if len(r.Results) == 0 && fd.Type.Results == nil {
+						return true // a bare return: nothing (more) is done
+					}
+					// `return nil` / `return 0, nil`: the rest is skipped, nothing is reported
+					allZero := len(r.Results) > 0
+					for _, e := range r.Results {
+						if id, ok := ast.Unparen(e).(*ast.Ident); ok && id.Name == "nil" {
+							continue
+						}
+						if tv, ok := info.Types[e]; ok && tv.Value != nil && (tv.Value.ExactString() == "0" || tv.Value.ExactString() == "false" || tv.Value.ExactString() == `""`) {
+							continue
+						}
+						allZero = false
+					}
+					if allZero {
+						return true
+					}
 				}
 				if !refusalBlock(info, b, fd) {
 					return false
+				}
+				// `return helper(…)` hands the work on; it refuses nothing by itself
+				if r, ok := b.List[len(b.List)-1].(*ast.ReturnStmt); ok && len(r.Results) > 0 {
+					if cl, ok := ast.Unparen(r.Results[len(r.Results)-1]).(*ast.CallExpr); ok {
+						if f := calleeFunc(info, cl); f != nil && isZrnt(f) {
+							return false
+						}
+					}
 				}
 				// a block that also holds a success return is a separate path through the function, not a refusal
 				pure := true
@@ -1055,18 +1156,43 @@ func refusalOp(info *types.Info, fd *ast.FuncDecl, parents map[ast.Node]ast.Node
 				})
 				return pure
 			}
+			// soft: the block merely skips the rest (return nil / continue / lone break / bare return); a block that
+			// reports (error, false, non-ACCEPT) weighs more: `if bad { return err } else { return nil }` refuses on bad
+			soft := func(b *ast.BlockStmt) bool {
+				if b == nil || len(b.List) == 0 {
+					return false
+				}
+				if _, ok := b.List[len(b.List)-1].(*ast.BranchStmt); ok {
+					return true
+				}
+				if r, ok := b.List[0].(*ast.ReturnStmt); ok && len(b.List) == 1 {
+					return !refusalBlock(info, b, fd) || len(r.Results) == 0
+				}
+				return false
+			}
 			thenRef := skips(p.Body)
 			elseRef := false
-			if eb, ok := p.Else.(*ast.BlockStmt); ok {
+			eb, _ := p.Else.(*ast.BlockStmt)
+			if eb != nil {
 				elseRef = skips(eb)
 			}
-			if !thenRef && !elseRef && p.Else == nil {
+			if thenRef && elseRef && soft(p.Body) != soft(eb) {
+				if soft(p.Body) {
+					thenRef = false
+				} else {
+					elseRef = false
+				}
+			}
+			if (!thenRef || soft(p.Body)) && !elseRef && p.Else == nil {
 				// `if good { ...; return nil }` directly followed by the refusal
 				if blk, ok := parents[p].(*ast.BlockStmt); ok {
 					for i, st := range blk.List {
 						if st == ast.Stmt(p) && i+1 < len(blk.List) {
 							if r, ok := blk.List[i+1].(*ast.ReturnStmt); ok && terminates(p.Body) {
 								elseRef = refusalBlock(info, &ast.BlockStmt{List: []ast.Stmt{r}}, fd)
+								if elseRef && thenRef {
+									thenRef = false // the skip yields to the refusal that follows it
+								}
 							}
 						}
 					}
@@ -1077,21 +1203,51 @@ func refusalOp(info *types.Info, fd *ast.FuncDecl, parents map[ast.Node]ast.Node
 			case thenRef && !elseRef:
 			case elseRef && !thenRef:
 				op = negOp[op]
-			case !thenRef && !elseRef && p.Else == nil && len(p.Body.List) > 0:
-				// `if cond { act }` without else: the action is skipped when the condition is false
-				op = negOp[op]
-			case !thenRef && !elseRef && p.Else != nil:
-				// two actions: the branch is named by the first (alphabetically) field, method, function or constant
-				// that only one of them mentions (locals do not count: renaming one must not matter); swapping the
-				// branches and negating the condition leaves the reading unchanged
-				switch branchMark(info, p.Body, p.Else) {
-				case 1:
-					op = negOp[op] // the marked action is skipped when the condition is false
-				case 2:
-				default:
-					return 0
-				}
+			// An `if` whose branches both DO something (or whose only branch overrides a default: `x := a; if c { x = b }`
+			// is `x := b; if !c { x = a }`) is a two-way split; which half stands in the `if` is a matter of style, so
+			// no side is recorded for those: only refusing / skipping branches give a comparison a side.
 			default:
+				return 0
+			}
+			if neg {
+				op = negOp[op]
+			}
+			return op
+		case *ast.CaseClause:
+			// `case cond:` of a tagless switch reads like the `if cond` of a chain
+			isCase := false
+			for _, e := range p.List {
+				if e == cur {
+					isCase = true
+				}
+			}
+			if !isCase || len(p.List) != 1 {
+				return 0
+			}
+			if sw, ok := parents[parents[p]].(*ast.SwitchStmt); !ok || sw.Tag != nil {
+				return 0
+			}
+			blk := &ast.BlockStmt{List: p.Body}
+			op := be.Op
+			if len(p.Body) == 0 {
+				return 0
+			}
+			pureRef := refusalBlock(info, blk, fd)
+			if br, ok := p.Body[len(p.Body)-1].(*ast.BranchStmt); ok && br.Tok == token.CONTINUE {
+				pureRef = true
+			}
+			if pureRef {
+				ast.Inspect(blk, func(n ast.Node) bool {
+					if r, ok := n.(*ast.ReturnStmt); ok && !refusalBlock(info, &ast.BlockStmt{List: []ast.Stmt{r}}, fd) {
+						pureRef = false
+					}
+					return pureRef
+				})
+			}
+			if br, ok := p.Body[len(p.Body)-1].(*ast.BranchStmt); ok && br.Tok == token.BREAK && len(p.Body) == 1 {
+				pureRef = true
+			}
+			if !pureRef {
 				return 0
 			}
 			if neg {
@@ -1189,8 +1345,22 @@ func cutSide(p Poly, rop token.Token) string {
 
 // countingLoop: be is the condition of `for i := 0; i < E; i++`.
 func countingLoop(info *types.Info, parents map[ast.Node]ast.Node, be *ast.BinaryExpr) bool {
-	f, ok := parents[be].(*ast.ForStmt)
-	if !ok || f.Cond != ast.Expr(be) || be.Op != token.LSS {
+	// the condition itself, or a conjunct of it: `for i := 0; i < n && more; i++`
+	var top ast.Node = be
+	for {
+		p, ok := parents[top].(*ast.BinaryExpr)
+		if ok && p.Op == token.LAND {
+			top = p
+			continue
+		}
+		if pe, ok := parents[top].(*ast.ParenExpr); ok {
+			top = pe
+			continue
+		}
+		break
+	}
+	f, ok := parents[top].(*ast.ForStmt)
+	if !ok || f.Cond != top || be.Op != token.LSS {
 		return false
 	}
 	iv, ok := ast.Unparen(be.X).(*ast.Ident)
@@ -1232,4 +1402,127 @@ func countingLoop(info *types.Info, parents map[ast.Node]ast.Node, be *ast.Binar
 		return !written
 	})
 	return !written
+}
+
+func isIfStmt(s ast.Stmt) bool { _, ok := s.(*ast.IfStmt); return ok }
+
+// branchNamesOf: for a comparison in the condition of an `if` (through parentheses, !, && and ||): the fields,
+// functions and constants (no locals: renaming one must not matter) mentioned by the then-branch, and by the
+// else-branch — or, when the then-branch always leaves, by the statements that follow the `if`.
+func branchNamesOf(info *types.Info, parents map[ast.Node]ast.Node, be *ast.BinaryExpr) (tn, en map[string]bool, neg bool) {
+	var cur ast.Node = be
+	for {
+		switch p := parents[cur].(type) {
+		case *ast.ParenExpr:
+			cur = p
+			continue
+		case *ast.UnaryExpr:
+			if p.Op != token.NOT {
+				return nil, nil, false
+			}
+			neg = !neg
+			cur = p
+			continue
+		case *ast.BinaryExpr:
+			if p.Op != token.LAND && p.Op != token.LOR {
+				return nil, nil, false
+			}
+			cur = p
+			continue
+		case *ast.IfStmt:
+			if p.Cond != cur {
+				return nil, nil, false
+			}
+			names := func(nodes ...ast.Node) map[string]bool {
+				m := map[string]bool{}
+				for _, n := range nodes {
+					if n == nil {
+						continue
+					}
+					ast.Inspect(n, func(k ast.Node) bool {
+						id, ok := k.(*ast.Ident)
+						if !ok {
+							return true
+						}
+						switch v := info.ObjectOf(id).(type) {
+						case *types.Func, *types.Const:
+							m[id.Name] = true
+						case *types.Var:
+							if v.IsField() || (v.Pkg() != nil && v.Parent() == v.Pkg().Scope()) {
+								m[id.Name] = true
+							}
+						}
+						return true
+					})
+				}
+				return m
+			}
+			tn = names(p.Body)
+			switch {
+			case p.Else != nil:
+				en = names(p.Else)
+			case terminates(p.Body):
+				if blk, ok := parents[p].(*ast.BlockStmt); ok {
+					var rest []ast.Node
+					for i, st := range blk.List {
+						if st == ast.Stmt(p) {
+							for _, r := range blk.List[i+1:] {
+								rest = append(rest, r)
+							}
+						}
+					}
+					en = names(rest...)
+				}
+			}
+			if en == nil {
+				en = map[string]bool{}
+			}
+			return tn, en, neg
+		default:
+			return nil, nil, false
+		}
+	}
+}
+
+// pickMark: the name the table records for a comparison that governs actions only: the first (alphabetically) name of
+// the then-branch that the other branch does not mention, failing that the first of the other branch.
+func pickMark(s cmpSite) string {
+	best := ""
+	for n := range s.tn {
+		if !s.en[n] && (best == "" || n < best) {
+			best = n
+		}
+	}
+	if best != "" {
+		return best
+	}
+	for n := range s.en {
+		if !s.tn[n] && (best == "" || n < best) {
+			best = n
+		}
+	}
+	return best
+}
+
+// markRop: the operator under which the action that mentions mk is SKIPPED at this site: the negated test when mk is
+// in the then-branch only, the test itself when it is in the other branch only; 0 when it is in both or in neither
+// (the action was moved: nothing is concluded). Swapping the branches and negating the test gives the same answer;
+// negating the test alone does not.
+func markRop(s cmpSite, mk string) token.Token {
+	if s.tn == nil || mk == "" {
+		return 0
+	}
+	var op token.Token
+	switch {
+	case s.tn[mk] && !s.en[mk]:
+		op = negOp[s.op]
+	case s.en[mk] && !s.tn[mk]:
+		op = s.op
+	default:
+		return 0
+	}
+	if s.negc {
+		op = negOp[op]
+	}
+	return op
 }
